@@ -160,7 +160,7 @@ def oracleReq (s : OSt) (n b k : Nat) : OSt × String :=
         -- (b) after the resource has been idle the first window admits no more than T/cf
         else if k > 0 ∧ idle ∧ c.T / c.cf * (1 + eps) < total then
           (if nan then "known:warmup-nan"
-           else if tk.tokens = c.warn then "known:warmup-stuck-at-warning"
+           else if Known.stuckAtWarning c tk then "known:warmup-stuck-at-warning"
            else if Known.starves c then "known:warmup-starvation"
            else "bad cold-start-above-T/cf")
         -- (c) a single-token demand is not starved when the threshold is at least one
@@ -171,7 +171,7 @@ def oracleReq (s : OSt) (n b k : Nat) : OSt × String :=
            else "?")
         -- (d) after sustained (saturating, second-aligned) demand for the warm-up period the threshold is the full T
         else if notFull ∧ sat.isSome ∧ s.period ≤ elapsed ∧ !nan ∧ (c.cf : Rat) ≤ c.T then
-          (if c.max - c.warn + 2 ≤ elapsed then "bad full-threshold-not-reached" else "known:warmup-late-ramp")
+          (if Known.lateRamp c s.period elapsed then "known:warmup-late-ramp" else "bad full-threshold-not-reached")
         else "ok"
       ({ commit tk with sat := sat }, r)
 
